@@ -1,5 +1,6 @@
 """C08: Compile is total - any source text yields a program or an error value."""
 from props.core import *
+import os
 import front
 
 ASSUMPTIONS = ["the model reads runes (what bufio.ReadRune delivers); sources that are not valid UTF-8, that have non-ASCII runes outside strings/comments/regex bodies, or that contain numbers of "
@@ -75,6 +76,13 @@ def run(ctx):
         if "err" in r and not str(r["err"]).strip():
             ctx.violation("the error value has an empty message", {"source": s})
     k25 = probe_k25(ctx)
+    if not quick:
+        # cross-check of the extraction: results of the extracted model re-checked inside Coq
+        import subprocess
+        px = subprocess.run(["python3", os.path.join(os.path.dirname(os.path.dirname(os.path.abspath(__file__))), "xcheck.py"), "90"], capture_output=True, text=True)
+        ctx.coverage["extraction_crosscheck"] = (px.stdout.strip().split("\n") or ["?"])[0]
+        if px.returncode != 0:
+            ctx.corr_break("EXTRACTION", {"output": (px.stdout + px.stderr)[-1200:]})
     ctx.coverage["evaluations"] = len(srcs)
     ctx.coverage["distinct_nontrivial"] = len({s for s, d in zip(srcs, outs) if d["go"][0] in ("lexerr", "parseerr") or d["raw"].get("errclass") == "gen"})
     ctx.coverage["outcomes"] = stats
